@@ -40,14 +40,7 @@ EXPECTED = [
 
 
 def build(S, tier, seed):
-    act = _base(S)
-    S.verify(put.ShouldSkip())
-    S.verify(put.AtomicWrite())
-    S.verify(put.PutMove())
-    S.verify(put.PutRemoveFile())
-    S.verify(put.TryTrash(), active=[put.PutMove().key, put.PutRemoveFile().key])
-    S.verify(put.MakeCandidateDirs(), active=[put.MkdirP().key])
-    S.verify(put.CreateTrashinfoBasename())
+    act = put.leaf_vcs(S)
     put.trash_file_in_vc(S)
     put.trash_file_vc(S)
     put.trash_single_vc(S)
